@@ -7,6 +7,7 @@ import (
 	"os"
 	"strconv"
 	"strings"
+	"time"
 
 	"github.com/samber/ro"
 )
@@ -50,6 +51,21 @@ func ReadPFCases(path string, fn func(i int, c *PFCase)) (int, error) {
 }
 
 func ReplayPipeForm(idx int, c *PFCase, out *[]Mismatch) {
+	done := make(chan struct{})
+	var res []Mismatch
+	go func() {
+		defer close(done)
+		replayPipeForm(idx, c, &res)
+	}()
+	select {
+	case <-done:
+		*out = append(*out, res...)
+	case <-time.After(10 * time.Second):
+		*out = append(*out, Mismatch{Case: idx, Chain: fmt.Sprintf("%s/%d", c.Form, c.N), Mode: "sync", Step: -1, Class: "hang", Detail: "a call into the library did not return within 10s"})
+	}
+}
+
+func replayPipeForm(idx int, c *PFCase, out *[]Mismatch) {
 	add := func(class, detail string) {
 		*out = append(*out, Mismatch{Case: idx, Chain: fmt.Sprintf("%s/%d", c.Form, c.N), Mode: "sync", Step: 0, Class: class, Detail: detail})
 	}
